@@ -9,6 +9,7 @@ U2S = ("u2_mapper_reader", {"profile": "safety"})
 U10M = ("u10_typed_trace", {"which": "mapper"})
 U10C = ("u10_typed_trace", {"which": "cache"})
 
+U5 = ("u5_parser", {})
 U8 = ("u8_writer_tail", {})
 U4 = ("u4_cache_parse", {})
 U7 = ("u7_metadata", {})
@@ -64,6 +65,39 @@ PROPS = {
         "assumed": ["'last class line wins' is a property of HashMap::insert / BTreeMap::insert inside the builders (assumed)",
                     "cache: StringTable interning (equal strings <=> equal offsets among a class's members) is part of the assumed representation invariant"],
         "design_ref": "DESIGN.md 5/C04",
+    },
+    "C05": {
+        "title": "Well-formed mapping lines parse to exactly their parts; malformed ones error",
+        "units": [U5],
+        "kani": [],
+        "technique": "Verus contracts on the real line parser: scanning primitives (positive relational closure contracts), class and header lines against reference grammar specs, member lines by sub-lemmas",
+        "level_text": "Proof for every byte string: the scanning primitives split exactly at the first stop byte / strip exactly the prefix / "
+                      "take the maximal digit run; a class line parses iff it has the shape `o -> b:tail` with the documented character "
+                      "restrictions and yields exactly (o, b); a header parses exactly as the reference grammar parser header_spec() does "
+                      "(JSON sourceFile form and `# key[: value]` with trimming); for member lines: method iff an argument list is present, "
+                      "line mapping present iff both obfuscated numbers are positive and carrying exactly the parsed numbers, end line "
+                      "required after a start line, original lines only after the argument list, foreign class split at the last dot; "
+                      "try_parse accepts only when nothing but line terminators remains; errors carry the offending line. "
+                      "A full print/parse lemma for member lines is NOT claimed.",
+        "assumed": ["from_utf8, str::trim (sub-slice), str::parse::<usize> (abstract), rsplitn(2, '.') (split at last dot) and (b as char).is_numeric() (table, validated exhaustively by tools/native/is_numeric_table.rs) have their documented contracts",
+                    "contents of byte-string literals (one axiom per literal, generated from the literal text itself)"],
+        "not_decided": ["member lines are not compared with a single reference grammar function (sub-lemmas only)"],
+        "design_ref": "DESIGN.md 5/C05",
+    },
+    "C06": {
+        "title": "Parsing is total and a bad line never affects the lines after it",
+        "units": [U5, U7],
+        "kani": [],
+        "technique": "Verus: every parser function verified with no precondition (totality, termination); line-boundary discipline as postconditions (consumed bytes contain no line terminator; errors consume exactly one line); progress => at most one item per byte",
+        "level_text": "Proof for every byte string: no parser function panics or overflows; parse_proguard_record makes progress on non-empty input "
+                      "and ProguardRecordIter yields records(bytes) with |records| <= |bytes|; every string placed in a record contains no "
+                      "line terminator; an Ok record is taken from within the first line (the bytes it consumes contain no terminator) and an "
+                      "Err consumes exactly the first line with one terminator byte; rest is always a suffix of the input. "
+                      "NOT decided: that the result depends only on the first line, i.e. the full equation records(A+nl+B) = records(A)++records(B) "
+                      "(a 2-safety property; it would follow from reference grammar functions for all three record kinds, which exist for class and header lines only).",
+        "assumed": ["same std contracts as C05"],
+        "not_decided": ["records(A + newline + B) == records(A) ++ records(B) as an equation"],
+        "design_ref": "DESIGN.md 5/C06",
     },
     "C08": {
         "title": "Typed stack-trace remapping keeps every element",
@@ -140,7 +174,7 @@ PROPS = {
     },
     "C19": {
         "title": "File-level metadata answers equal a fold over the complete record stream",
-        "units": [U7],
+        "units": [U7, U5],
         "kani": [],
         "technique": "Verus loop invariants over the prophetic iterator spec of ProguardRecordIter (remaining() == records(bytes)) on the real has_line_info / is_valid / MappingSummary::new",
         "level_text": "Proof for every byte string that has_line_info == exists a method record with a line mapping, is_valid == exists i<j<50 with "
@@ -164,7 +198,7 @@ PROPS = {
     },
     "C13": {
         "title": "No mapping bytes and no query can make the library panic or overflow",
-        "units": [U2S, U7, U10M],
+        "units": [U2S, U5, U7, U10M],
         "kani": ["k3_java_base_types"],
         "technique": "Verus implicit obligations on the mapper reader with NO precondition on entry values",
         "level_text": "The mapper's reader functions are verified with arbitrary usize entry values and any frame: no overflow, no out-of-bounds, termination.",
